@@ -31,7 +31,9 @@ PROBES = [
     ("t52-alias-to-mutator", "    @staticmethod\n    def app(l, v):\n        l.append(v)\n    def f(self, k):\n        names = self.d[k]\n        self.app(names, 9)\n", [("k", "Str")], "None", ("contains", "PyDict.set strEq self.d k names")),
     ("t4-set-order", "    def f(self, a):\n        return [v for v in set(a)]\n", [("a", "List[Num]")], "List[Num]", "fail"),
     ("t5-value-before-subscripts", "    def f(self, k, l):\n        self.dd[k][k] = l[0]\n", [("k", "Str"), ("l", "List[Num]")], "None", ("order", "PyList.first l", "PyDict.getItem strEq self.dd k")),
-    ("dup-def", "    def f(self):\n        return 1\n    def f(self):\n        return 2\n", [], "Num", "fail"),
+    ("dictcomp-over-list", "    def f(self, l):\n        return {k: self.d[k] for k in l}\n", [("l", "List[Str]")], "Dict[Str, List[Num]]", "fail"),
+    ("set-update-then-iterate", "    def f(self, a, b):\n        s = set(a)\n        s.update(b)\n        return [v for v in s]\n", [("a", "List[Num]"), ("b", "List[Num]")], "List[Num]", "fail"),
+    ("dup-def","    def f(self):\n        return 1\n    def f(self):\n        return 2\n", [], "Num", "fail"),
     ("monkey-patch", "    def f(self):\n        return 1\nT.f = lambda self: 2\n", [], "Num", "fail"),
     ("subclass-override", "    def f(self):\n        return 1\nclass U(T):\n    def f(self):\n        return 2\n", [], "Num", "fail"),
 ]
